@@ -564,7 +564,7 @@ def edge_target(rng, d, coords):
     return prior, like
 
 
-def gen_config(rng, i, vv_choices=(0.5, 0.3, 0.2, 0.1), narrow=True):
+def gen_config(rng, i, vv_choices=(0.5, 0.3, 0.2, 0.1), narrow=True, force_vv=False):
     """one configuration of the lattice kernel x resampler x clustering x reweighting mode x boundary kind x target.
     The first four are cycled (every combination appears), the rest is drawn."""
     from .c01 import make_target
@@ -572,6 +572,8 @@ def gen_config(rng, i, vv_choices=(0.5, 0.3, 0.2, 0.1), narrow=True):
     resample = ("syst", "mult")[(i // 2) % 2]
     clustering = bool((i // 4) % 2)
     vv = [None, None, rng.choice(list(vv_choices)), None][(i // 8 + i) % 4]
+    if force_vv and vv is None:
+        vv = rng.choice(list(vv_choices))
     bimodal = clustering and rng.random() < 0.5
     if bimodal:
         d, n = 2, 48
@@ -662,16 +664,17 @@ def _inb(rec, st):
     return np.atleast_1d(check_bounds(np.array(st["cand"]), c.periodic, c.reflective))
 
 
-def suite_replay(tier, rng_name, n_quick=32, n_thorough=200):
-    """iteration-driven replay over the configuration lattice (at most 14 iterations per run)"""
+def suite_replay(tier, rng_name, n_quick=32, n_thorough=200, force_vv=False, name="extended-trace-replay"):
+    """iteration-driven replay over the configuration lattice (at most 14 iterations per run); `force_vv`: every run in
+    volume-variation mode (half of them with the tight targets under which the dynamic mode holds beta)"""
     from .common import Corr
     drv = common.Driver()
     rng = common.rng_for(rng_name)
-    c = Corr("extended-trace-replay", "toleranced Float (values 1e-9, decisions exact, near-ties counted)")
+    c = Corr(name, "toleranced Float (values 1e-9, decisions exact, near-ties counted)")
     n_runs = n_quick if tier == "quick" else n_thorough
     recs, lines = [], []
     for i in range(n_runs):
-        cfg, meta, prior, like = gen_config(rng, i)
+        cfg, meta, prior, like = gen_config(rng, i, force_vv=force_vv)
         seed = rng.randrange(2 ** 31)
         meta["seed"] = seed
         np.random.seed(seed)
